@@ -37,10 +37,12 @@ def rel(cmp, a, b):
     return {'<': lt, '<=': le, '>': gt, '>=': ge, '=': eq, '==': eq, '!=': ne}[cmp](a, b)
 
 
-def tolerance(v):
+def tolerance(v, tol=None, rel=None):
+    tol = TOL if tol is None else tol
+    rel = REL if rel is None else rel
     if isinstance(v, float):          # a constant right-hand side: mystic computes its tolerance in floats
-        return TOL + abs(v) * REL
-    return R(TOL) + absv(v) * R(REL)
+        return tol + abs(v) * rel
+    return R(tol) + absv(v) * R(rel)
 
 
 # right-hand sides: (text, function of the variable vector, variables used)
@@ -58,12 +60,18 @@ def rhs_pool(names):
     ]
 
 
-def single(cmp, rhs_text, rhs_fn, n, names, named):
+def single(cmp, rhs_text, rhs_fn, n, names, named, tolrel=None):
     text = '%s %s %s' % (names[0], cmp, rhs_text)
 
     def h(ctx):
         import mystic.symbolic as ms
         kw = dict(variables=list(names[:n])) if named else dict(nvars=n)
+        if tolrel is not None:
+            # user-chosen absolute / relative strictness (documented: locals={'tol': ..., 'rel': ...}); dyadic, clearly different
+            kw['locals'] = dict(tol=tolrel[0], rel=tolrel[1])
+
+        def tolerance(v, _t=globals()['tolerance']):
+            return _t(v, *tolrel) if tolrel is not None else _t(v)
         cf = ms.generate_constraint(ms.generate_solvers(text, **kw))
         x = ctx.reals('x', n)
         y = L.vec(cf(list(x)))
@@ -252,6 +260,13 @@ def instances(tier, seed):
         for k, (rt, rf) in enumerate(rhs_pool(nam)[2:6]):
             h, text = single(cmp, rt, rf, 4 if not q else 3, nam, True)
             out.append(Instance('named/%s' % text.replace(' ', ''), h))
+    for cmp in ('<', '>'):
+        for k in ((0, 2) if q else (0, 1, 2, 3, 5)):
+            rt, rf = pool[k]
+            # (tol > 0: with tol = 0 a zero right-hand side leaves no strictness margin at all - the user's own setting)
+            for tr in ((0.5, 0.0), (0.25, 1.0), (0.125, 0.5)) if not q else ((0.5, 0.0), (0.125, 0.5)):
+                h, text = single(cmp, rt, rf, 3, idx, False, tolrel=tr)
+                out.append(Instance('single/%s/tol=%s/rel=%s' % (text.replace(' ', ''), tr[0], tr[1]), h))
     for text, n, rels in MULTI:
         out.append(Instance('multi/%s' % text.replace('\n', ';').replace(' ', ''), multi(text, n, rels)))
     for form in GROUPINGS:
